@@ -26,6 +26,7 @@ structure Prov (T U : List Nat) (s : Sys) : Prop where
   rxs : RingsOk T s.rxs
   cyc : ∀ cs, s.cyc = some cs → RingsOk T cs.todo ∧ RingsOk T cs.kept ∧ (∀ c ∈ cs.buf, CmdOk T c) ∧ ∀ c ∈ cs.buf2, CmdOk T c
   coll : CollOk T s.coll
+  carried : ∀ c ∈ s.carried, CmdOk T c
 
 /-! ### association lists -/
 
@@ -185,6 +186,7 @@ theorem Prov.setTh {T U : List Nat} {s : Sys} (h : Prov T U s) (t : Nat) (th : T
   rxs := h.rxs
   cyc := h.cyc
   coll := h.coll
+  carried := h.carried
 
 theorem Prov.putCtr {T U : List Nat} {s : Sys} (h : Prov T U s) (t : Nat) (c : Ctr) : Prov T U (s.putCtr t c) where
   spans := h.spans
@@ -197,6 +199,7 @@ theorem Prov.putCtr {T U : List Nat} {s : Sys} (h : Prov T U s) (t : Nat) (c : C
   rxs := h.rxs
   cyc := h.cyc
   coll := h.coll
+  carried := h.carried
 
 theorem Prov.withSpans {T U : List Nat} {s : Sys} (h : Prov T U s) (sp : List (String × SpanVal))
     (hsp : ∀ e ∈ sp, SvOk T U e.2) : Prov T U { s with spans := sp } where
@@ -206,6 +209,7 @@ theorem Prov.withSpans {T U : List Nat} {s : Sys} (h : Prov T U s) (sp : List (S
   rxs := h.rxs
   cyc := h.cyc
   coll := h.coll
+  carried := h.carried
 
 theorem Prov.setSpan {T U : List Nat} {s : Sys} (h : Prov T U s) (v : String) (sv : SpanVal) (hsv : SvOk T U sv) :
     Prov T U { s with spans := assocSet s.spans v sv } :=
@@ -231,6 +235,7 @@ theorem Prov.withAdapters {T U : List Nat} {s : Sys} (h : Prov T U s) (ads : Lis
   rxs := h.rxs
   cyc := h.cyc
   coll := h.coll
+  carried := h.carried
 
 theorem Prov.withLspans {T U : List Nat} {s : Sys} (h : Prov T U s) (x : List (String × LocalSpansVal)) :
     Prov T U { s with lspans := x } where
@@ -240,6 +245,7 @@ theorem Prov.withLspans {T U : List Nat} {s : Sys} (h : Prov T U s) (x : List (S
   rxs := h.rxs
   cyc := h.cyc
   coll := h.coll
+  carried := h.carried
 
 theorem svOk_none (T U : List Nat) : SvOk T U none := fun _ h => by cases h
 
@@ -256,7 +262,7 @@ theorem Prov.register {T U : List Nat} {s s' : Sys} (h : Prov T U s) (t : Nat) (
       rw [hc] at hr
       simp only [Option.some.injEq] at hr
       subst hr
-      refine ⟨h1.spans, h1.adapters, h1.threads, ?_, h1.cyc, h1.coll⟩
+      refine ⟨h1.spans, h1.adapters, h1.threads, ?_, h1.cyc, h1.coll, h1.carried⟩
       intro e he
       simp only [List.mem_append, List.mem_singleton] at he
       rcases he with he | rfl
@@ -270,7 +276,7 @@ theorem Prov.register {T U : List Nat} {s s' : Sys} (h : Prov T U s) (t : Nat) (
       · simp only [Option.some.injEq] at hr
         subst hr
         obtain ⟨c1, c2, c3, c4⟩ := h.cyc cs hc
-        refine ⟨h1.spans, h1.adapters, h1.threads, h1.rxs, ?_, h1.coll⟩
+        refine ⟨h1.spans, h1.adapters, h1.threads, h1.rxs, ?_, h1.coll, h1.carried⟩
         intro cs' hcs'
         simp only [Option.some.injEq] at hcs'
         subst hcs'
@@ -307,18 +313,18 @@ theorem Prov.setRing {T U : List Nat} {s : Sys} (h : Prov T U s) (t : Nat) (r : 
   cases hc : s.cyc with
   | none =>
     dsimp only
-    exact ⟨h.spans, h.adapters, h.threads, h.rxs.natSet t r hr, (fun cs hcs => nomatch hcs), h.coll⟩
+    exact ⟨h.spans, h.adapters, h.threads, h.rxs.natSet t r hr, (fun cs hcs => nomatch hcs), h.coll, h.carried⟩
   | some cs =>
     dsimp only
     obtain ⟨h1, h2, h3, h4⟩ := h.cyc cs hc
     split
-    · refine ⟨h.spans, h.adapters, h.threads, h.rxs, ?_, h.coll⟩
+    · refine ⟨h.spans, h.adapters, h.threads, h.rxs, ?_, h.coll, h.carried⟩
       intro cs' hcs'
       simp only [Option.some.injEq] at hcs'
       subst hcs'
       exact ⟨h1.natSet t r hr, h2, h3, h4⟩
     · split
-      · refine ⟨h.spans, h.adapters, h.threads, h.rxs, ?_, h.coll⟩
+      · refine ⟨h.spans, h.adapters, h.threads, h.rxs, ?_, h.coll, h.carried⟩
         intro cs' hcs'
         simp only [Option.some.injEq] at hcs'
         subst hcs'
@@ -326,7 +332,7 @@ theorem Prov.setRing {T U : List Nat} {s : Sys} (h : Prov T U s) (t : Nat) (r : 
       · exact h
 
 theorem Prov.withG {T U : List Nat} {s : Sys} (h : Prov T U s) (g : Ghost) : Prov T U (s.withG g) :=
-  ⟨h.spans, h.adapters, h.threads, h.rxs, h.cyc, h.coll⟩
+  ⟨h.spans, h.adapters, h.threads, h.rxs, h.cyc, h.coll, h.carried⟩
 
 theorem Prov.sendCmd {T U : List Nat} {s : Sys} (h : Prov T U s) (t : Nat) (cmd : Cmd) (forced : Bool) (hc : CmdOk T cmd) :
     Prov T U (s.sendCmd t cmd forced) := by
